@@ -79,9 +79,14 @@ class C02(PropBase):
         own_style = rng.choice([("outer4", None, None), ("outer4", None, None), ("ad", 4, None), ("long", 2, 1), ("all4", 4, 4),
                                 ("long5", 5, None), ("long8", 8, 5)])
         npdu = rng.choice([1, 2, 2, 3, 3, 4, 5, 6, 8, 12])
+        giant = False
         if rng.random() < 0.012:
             npdu = rng.choice([4, 5, 6])  # few PDUs, each about 64 KiB: a stream of more than 256 KiB in one delivery
             g = Gen(rng, big=1.0, huge=0.6, customs=customs, rich=False)
+        elif rng.random() < 0.008:
+            npdu = rng.choice([16, 24, 32])  # several MiB of ordinary (64 KiB-field) messages: far beyond any sensible per-MESSAGE limit
+            g = Gen(rng, big=1.0, huge=0.6, customs=customs, rich=False)
+            giant = True
         elif rng.random() < 0.006:
             npdu = rng.choice([1023, 1024, 1025, 1100])  # more complete messages in one receive() than any sensible per-call cap
             big, huge = 0.0, 0.0
@@ -178,7 +183,8 @@ class C02(PropBase):
             stream = _own(msgs, own_style) if own_enc else lib_stream
         return {"op": "init", "role": role, "customs": customs, "prep": prep, "stream": stream.hex(),
                 "expected": [norm(x) for x in expected], "own_enc": own_enc,
-                "style": rng.choice(["mixed", "mixed", "byte", "header", "coalesce"]), "sweep_seed": rng.getrandbits(32),
+                "style": "head_rest" if giant else rng.choice(["mixed", "mixed", "byte", "header", "coalesce", "mixed", "mixed", "byte", "header", "coalesce", "head_rest"]),
+                "sweep_seed": rng.getrandbits(32),
                 "debug_logging": rng.random() < 0.3, "interlope": rng.choice([0.0, 0.0, 0.15]),
                 "sessions": [{"name": "S", "role": role, "register": customs, "predict": False},
                              {"name": "T", "role": role, "register": customs, "predict": False}]}
@@ -310,6 +316,9 @@ class C02(PropBase):
                     n = rng.randint(0, avail)
             else:
                 n = avail
+        elif style == "head_rest":
+            # a short first read (a few octets of the first header) and then everything else in ONE delivery
+            n = rng.choice([1, 2, 3, 5, 7]) if off == 0 else avail
         elif style == "coalesce":
             ends = [b for a, b in x["units"] if b > off]
             k = rng.choice([1, 2, 3])
